@@ -196,6 +196,7 @@ func runC14(c *mon.Ctx) {
 	c.Floor("state_responses_with_dropped_events", 50)
 	c.Floor("send_join_checks", 20)
 	c.Floor("auth_chain_checks", 50)
+	c.Floor("auth_chain_checks_after_a_refused_event", 50)
 	c.Floor("auth_at_state_checks", 50)
 	c.Floor("load_batches", 10)
 }
@@ -956,6 +957,46 @@ func c14AuthChain(c *mon.Ctx, r *gen.Rand, sc *simScenario) {
 		if fault == "provider-error" {
 			mode = provErrors
 		}
+		// the refused event of the history below
+		var poison gmsl.PDU
+		poisonPool := map[string]gmsl.PDU{}
+		{
+			sender := string(ev.SenderID())
+			var msgEv gmsl.PDU
+			{
+				uid := serverIdentity(serverOf(sender))
+				mb := s.impl.NewEventBuilderFromProtoEvent(&gmsl.ProtoEvent{SenderID: sender, RoomID: s.roomID, Type: "m.room.message", PrevEvents: []string{b.tip}, Depth: b.depth + 2,
+					AuthEvents: []string{s.create.EventID()}, Content: []byte(`{"body":"hi"}`)})
+				if s.t.Domainless {
+					mb.AuthEvents = []string{}
+				}
+				if me, err := mb.Build(baseTime, spec.ServerName(uid.Server), gmsl.KeyID(uid.KeyID), uid.Priv); err == nil {
+					msgEv = me
+				}
+			}
+			if msgEv != nil {
+				cite := []string{}
+				if !s.t.Domainless {
+					cite = append(cite, s.create.EventID())
+				}
+				for _, k := range []stKey{{"m.room.member", sender}, {"m.room.power_levels", ""}, {"m.room.join_rules", ""}} {
+					if p := b.state[k]; p != nil {
+						cite = append(cite, p.EventID())
+					}
+				}
+				cite = append(cite, msgEv.EventID())
+				uid := serverIdentity(serverOf(sender))
+				pb := s.impl.NewEventBuilderFromProtoEvent(&gmsl.ProtoEvent{SenderID: sender, RoomID: s.roomID, Type: "m.room.topic", StateKey: strp(""), PrevEvents: []string{b.tip}, Depth: b.depth + 3,
+					AuthEvents: cite, Content: []byte(`{"topic":"p"}`)})
+				if pe, err := pb.Build(baseTime, spec.ServerName(uid.Server), gmsl.KeyID(uid.KeyID), uid.Priv); err == nil {
+					poison = pe
+					for id, p := range s.all {
+						poisonPool[id] = p
+					}
+					poisonPool[msgEv.EventID()] = msgEv
+				}
+			}
+		}
 		c.Case("auth-chain:"+string(s.ver), map[string]any{"version": s.ver, "event": ev.Type(), "fault": fault, "detail": detail}, func() {
 			if fault != "none" {
 				c.Nontrivial(fmt.Sprintf("%s|chain|%s|%s|%s", s.ver, ev.EventID(), fault, detail))
@@ -981,6 +1022,30 @@ func c14AuthChain(c *mon.Ctx, r *gen.Rand, sc *simScenario) {
 					dir = "accepts-broken-chain"
 				}
 				c.Failf("authchain:"+dir+":"+fault, "VerifyEventAuthChain(%s %s) = %v, the recursive definition says ok=%v (fault %s %s)", ev.Type(), ev.EventID(), err, want, fault, detail)
+			}
+			// a history: between two verifications of this event, another event of the same sender is verified and refused
+			// on the way (it cites a message among its auth events, after the room's create / member / power-levels /
+			// join-rules events). Nothing of that may be left over for the next question.
+			if poison != nil && mode == provReturns {
+				for round := 0; round < 3; round++ {
+					var perr, err2 error
+					site, msg, pan := mon.Guard(func() {
+						perr = gmsl.VerifyEventAuthChain(context.Background(), poison, mkProvider(provReturns, poisonPool, &asked), userIDForSender)
+						err2 = gmsl.VerifyEventAuthChain(context.Background(), ev, mkProvider(mode, pool, &asked), userIDForSender)
+					})
+					if pan {
+						c.Failf("authchain:panic:"+site, "VerifyEventAuthChain panics: %s", msg)
+						return
+					}
+					c.Count("auth_chain_checks_after_a_refused_event")
+					if perr == nil {
+						c.Failf("authchain:accepts-broken-chain:cites-a-non-state-event", "VerifyEventAuthChain accepts an event that cites a message (no state event) among its auth events")
+					}
+					if (err2 == nil) != (err == nil) {
+						c.Failf("authchain:history:verdict-differs-after-a-refused-event:"+fault, "VerifyEventAuthChain(%s %s) = %v when asked first and %v after another event of the same sender was verified and refused (fault %s %s)", ev.Type(), ev.EventID(), err, err2, fault, detail)
+						break
+					}
+				}
 			}
 		})
 	}
